@@ -1,1 +1,44 @@
-// Kani contract harnesses for /repo/arrow-buffer/src/arith.rs (child module: sees private items via super::)
+// Kani contract harnesses for /repo/arrow-buffer/src/arith.rs (child module of `arith`)
+//
+// arith.rs only holds the macro derive_arith!, which derives std::ops::{Add, Sub, Mul, Div, Rem} and
+// the *Assign / by-reference forms for i256, IntervalDayTime and IntervalMonthDayNano from their
+// checked_* / wrapping_* methods.  Kani compiles with debug assertions, so the cfg(debug_assertions)
+// expansion is the one under contract: the operator is the checked method + expect (it panics instead of
+// wrapping).  The cfg(not(debug_assertions)) expansion (wrapping) is not compiled here: n/d.
+use crate::bigint::i256;
+use crate::interval::{IntervalDayTime, IntervalMonthDayNano};
+
+// Contract (C12): derive_arith! expansion (debug build).  Precondition: checked_op(a, b) = Some(v)
+// (otherwise the operator panics - documented debug behaviour, never a wrapped value).  Then a op b,
+// &a op b, a op &b, &a op &b and `a op= b` all equal v, for op in + - on i256 (all operands) and
+// + - * on IntervalDayTime / IntervalMonthDayNano; unary minus = checked_neg under the same rule.
+// @unit name=derive_arith_ops props=C12 kind=complete fns=derive_arith timeout=900
+#[kani::proof]
+fn derive_arith_ops() {
+    let (a, b) = (i256::from_parts(kani::any(), kani::any()), i256::from_parts(kani::any(), kani::any()));
+    if let Some(v) = a.checked_add(b) {
+        assert!(a + b == v && &a + b == v && a + &b == v && &a + &b == v);
+        let mut c = a;
+        c += b;
+        assert!(c == v);
+    }
+    if let Some(v) = a.checked_sub(b) {
+        assert!(a - b == v && &a - b == v && a - &b == v && &a - &b == v);
+        let mut c = a;
+        c -= b;
+        assert!(c == v);
+    }
+    if let Some(v) = a.checked_neg() { assert!(-a == v); }
+    let (x, y) = (IntervalDayTime::new(kani::any(), kani::any()), IntervalDayTime::new(kani::any(), kani::any()));
+    if let Some(v) = x.checked_add(y) { assert!(x + y == v && &x + &y == v); let mut c = x; c += y; assert!(c == v); }
+    if let Some(v) = x.checked_sub(y) { assert!(x - y == v); let mut c = x; c -= y; assert!(c == v); }
+    if let Some(v) = x.checked_mul(y) { assert!(x * y == v); }
+    if let Some(v) = x.checked_neg() { assert!(-x == v); }
+    let (m, n) = (IntervalMonthDayNano::new(kani::any(), kani::any(), kani::any()), IntervalMonthDayNano::new(kani::any(), kani::any(), kani::any()));
+    if let Some(v) = m.checked_add(n) { assert!(m + n == v && &m + n == v); let mut c = m; c += n; assert!(c == v); }
+    if let Some(v) = m.checked_sub(n) { assert!(m - n == v); let mut c = m; c -= n; assert!(c == v); }
+    if let Some(v) = m.checked_neg() { assert!(-m == v); }
+    kani::cover!(a.checked_add(b).is_some() && a.checked_sub(b).is_none());
+    kani::cover!(x.checked_mul(y).is_some() && x.checked_add(y).is_none());
+    kani::cover!(m.checked_add(n).is_some());
+}
